@@ -140,6 +140,72 @@ async def scenario_freshness():
     return None
 
 
+async def scenario_expiry_race():
+    gates = {}
+
+    async def load(k):
+        await gates.setdefault(k, asyncio.Event()).wait()
+        return ('v', k, NOW[0])
+
+    NOW[0] = 0
+    c = Cache(load, 100, 2, 'c')
+    for k in ('a', 'b'):
+        gates.setdefault(k, asyncio.Event()).set()
+        await c.lookup(k)
+    NOW[0] = 150  # both entries are stale now
+    gates['a'] = asyncio.Event()
+    ta = asyncio.ensure_future(c.lookup('a'))  # drops the stale entry, reloads (gated)
+    await settle()
+    gates.setdefault('c', asyncio.Event()).set()
+    await c.lookup('c')
+    gates.setdefault('d', asyncio.Event()).set()
+    await c.lookup('d')
+    gates['a'].set()
+    await ta
+    await settle()
+    if len(c._cache) > 2:
+        return {'confirmed': True, 'kind': 'capacity', 'what': 'cache holds %d entries with num_slots = 2 after a stale key was reloaded while other lookups refilled its slot' % len(c._cache)}
+    return None
+
+
+async def scenario_two_stale():
+    async def load(k):
+        return ('v', k, NOW[0])
+
+    NOW[0] = 0
+    c = Cache(load, 100, 4, 'c')
+    await c.lookup('a')
+    NOW[0] = 10
+    await c.lookup('b')
+    NOW[0] = 200
+    v = await c.lookup('b')
+    if NOW[0] - v[2] >= 100:
+        return {'confirmed': True, 'kind': 'freshness', 'what': 'with two stale entries, lookup of the younger one returned a value older than the lifetime', 'lifetime_ns': 100, 'loaded_at': v[2], 'returned_at': NOW[0]}
+    return None
+
+
+async def scenario_poison():
+    gate = asyncio.Event()
+    n = [0]
+
+    async def load(k):
+        n[0] += 1
+        if n[0] == 1:
+            await gate.wait()
+        return 'v%d' % n[0]
+
+    c = Cache(load, 10**9, 4, 'c')
+    creator = asyncio.ensure_future(c.lookup('k'))
+    await settle()
+    creator.cancel()
+    await settle()
+    try:
+        v = await asyncio.wait_for(c.lookup('k'), 5)
+    except BaseException as e:  # pylint: disable=broad-except
+        return {'confirmed': True, 'kind': 'poisoned-key', 'what': 'after the task that loaded k was cancelled, a later, independent lookup(k) raises %r: the cancelled future stays registered' % e}
+    return None
+
+
 async def scenario_isolation():
     gate = asyncio.Event()
 
@@ -171,7 +237,7 @@ ONLY = PAYLOAD.get('only')
 
 
 async def main():
-    scen = {'capacity': scenario_capacity, 'single-flight': scenario_single_flight, 'freshness': scenario_freshness, 'isolation': scenario_isolation}
+    scen = {'capacity': scenario_capacity, 'capacity2': scenario_expiry_race, 'single-flight': scenario_single_flight, 'freshness': scenario_freshness, 'freshness2': scenario_two_stale, 'poison': scenario_poison, 'isolation': scenario_isolation}
     for kind, f in scen.items():
         if kind in SKIP or (ONLY and kind != ONLY):
             continue
